@@ -57,6 +57,31 @@ Definition spec_default_priority (sh : shape) : Z :=
   | LFunction | LRoot => 500
   end.
 
+(* XPath semantics of the last step: the kinds of node (as locateMatchPatternDataList sees them,
+   see [nkey] below) a pattern ending in this step can match at all.  id()/key() may return any
+   node. *)
+Inductive nkey :=
+  | KElem (n : N) | KAttr (n : N) | KText | KComment | KPI | KRoot | KNsDecl | KOther.
+
+Definition step_may_match (l : laststep) (k : nkey) : bool :=
+  match l, k with
+  | LFunction, (KElem _ | KAttr _ | KText | KComment | KPI | KRoot) => true
+  | LRoot, KRoot => true
+  | LStep false NTComment, KComment => true
+  | LStep false NTText, KText => true
+  | LStep false NTPI, KPI => true
+  | LStep false NTPILit, KPI => true
+  | LStep false NTNode, (KElem _ | KText | KComment | KPI) => true
+  | LStep false (NTName m), KElem n => (m =? n)%N
+  | LStep false NTWild, KElem _ => true
+  | LStep false NTNSWild, KElem _ => true
+  | LStep true NTNode, KAttr _ => true
+  | LStep true (NTName m), KAttr n => (m =? n)%N
+  | LStep true NTWild, KAttr _ => true
+  | LStep true NTNSWild, KAttr _ => true
+  | _, _ => false
+  end.
+
 (* one alternative of a (union) match pattern *)
 Record alt := { a_pat : N; a_target : target; a_score : score }.
 
@@ -213,9 +238,6 @@ Fixpoint compile (s : sheet) : csheet :=
 
 (* ---------------------------------------------------------------------------------------- *)
 (* selection *)
-
-Inductive nkey :=
-  | KElem (n : N) | KAttr (n : N) | KText | KComment | KPI | KRoot | KNsDecl | KOther.
 
 (* locateMatchPatternDataList *)
 Definition locate (tb : tables) (k : nkey) : list entry :=
@@ -482,5 +504,16 @@ Section Select.
     forallb (fun t => forallb (fun a => implb (pmatch (a_pat a) n) (covers (a_target a) (key_of n)))
                               (t_alts t))
             (all_templates s).
+
+  (* guard of quiet_eq_nonquiet: templates of one stylesheet level with the same match string
+     and the same priority attribute behave alike on the node (violated only when the same
+     string denotes different patterns, e.g. under different namespace bindings) *)
+  Definition level_same_text (ts : list template) (n : node) : bool :=
+    forallb (fun t1 => forallb (fun t2 =>
+               implb ((t_text t1 =? t_text t2)%N && opt_z_eqb (t_prio t1) (t_prio t2))
+                     (Bool.eqb (tmatch t1 n) (tmatch t2 n))) ts) ts.
+
+  Definition same_text_same_match (s : sheet) (n : node) : bool :=
+    forallb (fun ts => level_same_text ts n) (postorder s).
 
 End Select.
